@@ -854,8 +854,17 @@ fn run_all(t: &[u8], only: &str) -> Vec<Value> {
 
 fn worker() {
     worker_loop(|only, payload| {
+        let (sampled, payload) = match payload.strip_prefix('S') {
+            Some(p) => (true, p),
+            None => (false, payload),
+        };
         let t = if payload == "-" { vec![] } else { unhex(payload) };
-        run_all(&t, only)
+        let outs = run_all(&t, only);
+        if sampled || !only.is_empty() {
+            Value::Array(outs)
+        } else {
+            compact_of(&BYTE_APIS, outs)
+        }
     });
 }
 
@@ -909,11 +918,15 @@ fn replay(args: &Args) {
             items.push((i, b));
         }
     }
-    let payloads: Vec<String> = items.iter().map(|(_, b)| if b.is_empty() { "-".to_string() } else { hex(b) }).collect();
     let apis: Vec<String> = BYTE_APIS.iter().map(|s| s.to_string()).collect();
     // about 2 events per call, ~36 calls per input
     let per_input = 2 * 36;
     let k = (items.len() * per_input).div_ceil(cap.max(1)).max(1);
+    let payloads: Vec<String> = items
+        .iter()
+        .enumerate()
+        .map(|(id, (_, b))| format!("{}{}", if id % k == 0 { "S" } else { "" }, if b.is_empty() { "-".to_string() } else { hex(b) }))
+        .collect();
     let mut st = Stats { calls: 0, ok: 0, err: 0, panic: 0, abort: 0, limit: 0, inconclusive: 0, per_api: Default::default() };
     let mut anomalies: Vec<(usize, Value)> = vec![];
     let mut kept: Vec<(usize, Vec<Value>)> = vec![];
@@ -929,6 +942,32 @@ fn replay(args: &Args) {
         }
         let sampled = id % k == 0;
         let mut keep = vec![];
+        for (i, ch) in res.compact.chars().enumerate() {
+            let api = BYTE_APIS[i];
+            if ch == '-' || ch == 'P' {
+                continue;
+            }
+            st.calls += 1;
+            let e = st.per_api.entry(api.to_string()).or_insert([0; 3]);
+            match ch {
+                'v' => {
+                    st.ok += 1;
+                    e[0] += 1;
+                    match api {
+                        "yaml.build" => built_yaml += 1,
+                        "json.validate" => valid_json += 1,
+                        "yaml.validate" => valid_yaml += 1,
+                        "jq.parse" => parsed_jq += 1,
+                        _ => {}
+                    }
+                }
+                'e' => {
+                    st.err += 1;
+                    e[1] += 1;
+                }
+                _ => st.limit += 1,
+            }
+        }
         for o in &res.outs {
             let api = o[0].as_str().unwrap_or("").to_string();
             let r = o[1].as_i64().unwrap_or(-9);
